@@ -4,14 +4,16 @@ from rules import storefacts
 from rules.storefacts import field_of, REQ_CAS
 
 LEVEL_TEXT = (
-    "Static clause check: R1 builds the truth table of MemoryStore::set (request cas in {0,!=0} x entry present/absent "
-    "x stored cas =/!= request cas) and of the remove_if predicate of MemoryStore::delete from the resolved MIR and "
-    "compares it with the property (mismatch -> KeyExists and no map write; match -> exactly one write); R2 requires the "
-    "acknowledged cas to be the very value written into the stored record and the handlers to copy it into the "
-    "response header; R3 requires every token stored over an existing item to come from the global fetch_add counter "
-    "(a token that is a function of the request alone can coincide with a counter-issued one); R4 requires "
-    "append/prepend/incr/decr to forward the request cas into the conditional set. Not decided: uniqueness as a "
-    "statement over whole histories (R3 is the structural reason), concurrency (C03)."
+    'Static clause check: R1 builds the truth table of MemoryStore::set (request cas in {0,!=0} x entry '
+    'present/absent x stored cas =/!= request cas) and of MemoryStore::delete (read from presence / comparison / '
+    'removal facts, whichever DashMap primitive is used: remove_if with a predicate or the entry API) from the '
+    'resolved MIR and compares it with the property (mismatch -> KeyExists and no map write; match -> exactly one '
+    'write; delete removes iff cas = 0 or equal); R2 requires the acknowledged cas to be the very value written into '
+    'the stored record and the handlers to copy it into the response header; R3 requires every token stored over an '
+    "existing item to come from the store's fetch_add counter (a token that is a function of the request alone can "
+    'coincide with a counter-issued one); R4 requires append/prepend/incr/decr to forward the request cas into the '
+    'conditional set. Not decided: uniqueness as a statement over whole histories (R3 is the structural reason), '
+    'concurrency (C03).'
 )
 ASSUMPTIONS = [
     "DashMap 5.5.3 semantic table (analysis/storemodel.py)",
